@@ -4,7 +4,7 @@
 (* comma or a letter.  Scopes of 20..200 characters straddle the 32-character look-ahead. *)
 EXTENDS Naturals, Sequences, TLC, Json
 
-CONSTANTS MinLen, MaxLen
+CONSTANTS MinLen, MaxLen, Letters   \* fewer letters => the random walk nests deeper
 
 VARIABLES s, stack
 vars == <<s, stack>>
@@ -19,7 +19,7 @@ PopClose == /\ Len(stack) > 0
             /\ s' = Append(s, Close(stack[Len(stack)]))
             /\ stack' = SubSeq(stack, 1, Len(stack) - 1)
 Letter == /\ Len(s) + Len(stack) < MaxLen
-          /\ \E ch \in {97, 98, 99, 100, 58, 49} : s' = Append(s, ch)
+          /\ \E ch \in Letters : s' = Append(s, ch)
           /\ UNCHANGED stack
 Comma == /\ Len(s) + Len(stack) < MaxLen
          /\ s' = Append(s, 44) /\ UNCHANGED stack
